@@ -87,16 +87,47 @@ def accOf : StepRes → Acc
 
 theorem finishStep_eq (r : StepRes) : finishStep r = accOf r := by cases r <;> rfl
 
+/-- what duplicate detection (`classify`) reads of the last recorded request: its sequence number and
+    fragment octets.  (The stored `response` is replaced by the continuation fragment when a
+    multi-fragment response series advances during the solicited confirm wait.) -/
+def lrKey (o : Option LastReq) : Option (Nat × List Nat) := o.map (fun lr => (lr.seq, lr.frag))
+
+@[simp] theorem lrKey_map_response (o : Option LastReq) (r : Option Resp) :
+    lrKey (o.map (fun lr => { lr with response := r })) = lrKey o := by
+  cases o <;> rfl
+
+/-- "the last recorded request has this sequence number and these octets" only depends on `lrKey` -/
+theorem lrKey_dup {x y : Option LastReq} (h : lrKey x = lrKey y) (q : Nat) (d : List Nat) :
+    (∃ l, x = some l ∧ l.seq = q ∧ l.frag = d) ↔ (∃ l, y = some l ∧ l.seq = q ∧ l.frag = d) := by
+  cases x with
+  | none =>
+    cases y with
+    | none => simp
+    | some ly => simp [lrKey] at h
+  | some lx =>
+    cases y with
+    | none => simp [lrKey] at h
+    | some ly =>
+      simp only [lrKey, Option.map_some, Option.some.injEq, Prod.mk.injEq] at h
+      constructor
+      · rintro ⟨l, hl, h1, h2⟩
+        simp only [Option.some.injEq] at hl; subst hl
+        exact ⟨ly, rfl, h.1 ▸ h1, h.2 ▸ h2⟩
+      · rintro ⟨l, hl, h1, h2⟩
+        simp only [Option.some.injEq] at hl; subst hl
+        exact ⟨lx, rfl, h.1 ▸ h1, h.2 ▸ h2⟩
+
 /-- `a'` extends `a` by infrastructure work only: the fields the control logic depends on are
-    untouched, the retained fragment is kept or consumed, `lastReq` is only rewritten by a deferred
-    read, and every new output is benign (not an executing callback). -/
+    untouched, the retained fragment is kept or consumed, the sequence number and octets of `lastReq`
+    (`lrKey`) are only rewritten by a deferred read, and every new output is benign (not an executing
+    callback). -/
 structure Frame (a a' : Acc) : Prop where
   select : a'.1.select = a.1.select
   now : a'.1.now = a.1.now
   cfg : a'.1.cfg = a.1.cfg
   frameId : a'.1.frameId = a.1.frameId
   pending : a'.1.pending = a.1.pending ∨ a'.1.pending = none
-  keep : a.1.deferred = none → a'.1.lastReq = a.1.lastReq ∧ a'.1.deferred = none
+  keep : a.1.deferred = none → lrKey a'.1.lastReq = lrKey a.1.lastReq ∧ a'.1.deferred = none
   outs : ∃ l, a'.2 = a.2 ++ l ∧ ∀ o ∈ l, isExec o = false
 
 theorem Frame.refl (a : Acc) : Frame a a :=
@@ -126,7 +157,7 @@ theorem Frame.trans {a b c : Acc} (h1 : Frame a b) (h2 : Frame b c) : Frame a c 
 theorem Frame.state {a : Acc} {s' : OState} (h1 : s'.select = a.1.select) (h2 : s'.now = a.1.now)
     (h3 : s'.cfg = a.1.cfg) (h4 : s'.frameId = a.1.frameId)
     (h5 : s'.pending = a.1.pending ∨ s'.pending = none)
-    (h6 : a.1.deferred = none → s'.lastReq = a.1.lastReq ∧ s'.deferred = none) : Frame a (s', a.2) :=
+    (h6 : a.1.deferred = none → lrKey s'.lastReq = lrKey a.1.lastReq ∧ s'.deferred = none) : Frame a (s', a.2) :=
   ⟨h1, h2, h3, h4, h5, h6, [], by simp, by simp⟩
 
 theorem Frame.emit (a : Acc) (o : OOut) (h : isExec o = false) : Frame a (emit a o) :=
@@ -552,7 +583,8 @@ theorem handleWriteHeader_hframe (a : Acc) (h : ObjHdr) : HFrame a (handleWriteH
 theorem handleWrite_hframe (a : Acc) (seq : Nat) (hs : List ObjHdr) : HFrame a (handleWrite a seq hs).1 := by
   unfold handleWrite
   show HFrame (a, 0).1 (List.foldl _ (a, 0) hs).1
-  exact foldl_hframe _ (fun p x => handleWriteHeader_hframe p.1 x) hs (a, 0)
+  refine foldl_hframe _ (fun p x => ?_) hs (a, 0)
+  exact handleWriteHeader_hframe p.1 x
 
 theorem handleFreezeHeader_hframe (a : Acc) (k : FreezeKind) (h : ObjHdr) :
     HFrame a (handleFreezeHeader a k h).1 := by
@@ -1498,8 +1530,12 @@ theorem solWaitOnFragment_pass (a : Acc) (sr : Series) (dl : Nat) (cont : SolCon
             · exact .of_frame (Frame.die _)
             · rename_i a5 r5 hw
               refine .frame (formatReadResponse_frame a4.1 false _ 0 a4.2) (.frame (Frame.writeSolicited hw) ?_)
+              -- the fragment just sent becomes the stored response (`lrKey` is kept)
               split
-              · exact resumeAfterSol_pass _ _
+              · have fr : Frame a5
+                    ({ a5.1 with lastReq := a5.1.lastReq.map (fun lr => { lr with response := some r5 }) }, a5.2) := by
+                  frame_simp
+                exact .frame fr (resumeAfterSol_pass _ _)
               · exact .of_frame (by frame_simp)
 
 /-- inversion of `classify`: what each verdict says about the fragment -/
@@ -1786,7 +1822,8 @@ def stepOld (env : OEnv) (s : OState) (inp : OInput) : OState × List OOut :=
     finishStep (settle 8 (dispatch ({ s with db := db, notified := true }, [.line s!"add {if ok then 1 else 0}"])))
   | .cut =>
     if s.mode matches .dead then (s, []) else
-    let s := { s with lastReq := none, select := none, deferred := none, pending := none, mode := .idle .noSleep }
+    let s := { s with db := s.db.reset, lastReq := none, select := none, deferred := none, pending := none,
+                      mode := .idle .noSleep }
     finishStep (settle 8 (runPass passFuel (s, [.line "session link stdio UnexpectedEof"])))
 
 theorem step_rx_old (env : OEnv) (s : OState) (src dst : Nat) (data : List Nat) :
@@ -1814,16 +1851,16 @@ theorem isControl_isExec {o : OOut} (h : isControl o = true) : isExec o = true :
   · rfl
   · contradiction
 
-/-- nothing was handled yet: the retained fragment, `select`, and (absent a deferred read) `lastReq`
-    are as at the start, and no executing callback was emitted -/
+/-- nothing was handled yet: the retained fragment, `select`, and (absent a deferred read) the sequence
+    number and octets of `lastReq` (`lrKey`) are as at the start, and no executing callback was emitted -/
 structure Quiet (a0 a : Acc) : Prop where
   pending : a.1.pending = a0.1.pending ∨ a.1.pending = none
   select : a.1.select = a0.1.select
-  keep : a0.1.deferred = none → a.1.lastReq = a0.1.lastReq ∧ a.1.deferred = none
+  keep : a0.1.deferred = none → lrKey a.1.lastReq = lrKey a0.1.lastReq ∧ a.1.deferred = none
   outs : ∀ o ∈ a.2, isExec o = false
 
 /-- the retained fragment `f` of `a0` was handled once, in a state `s1` that agrees with `a0` on
-    `select`, `now`, `cfg` (and `lastReq` if no read was deferred) -/
+    `select`, `now`, `cfg` (and the `lrKey` of `lastReq` if no read was deferred) -/
 structure Handled (a0 a : Acc) (f : Frag) (ctrl : AppCtrl) (func : Nat) (objects : Except Nat (List ObjHdr))
     (raw : List Nat) (s1 : OState) : Prop where
   was : a0.1.pending = some f
@@ -1831,7 +1868,7 @@ structure Handled (a0 a : Acc) (f : Frag) (ctrl : AppCtrl) (func : Nat) (objects
   select1 : s1.select = a0.1.select
   now1 : s1.now = a0.1.now
   cfg1 : s1.cfg = a0.1.cfg
-  keep1 : a0.1.deferred = none → s1.lastReq = a0.1.lastReq
+  keep1 : a0.1.deferred = none → lrKey s1.lastReq = lrKey a0.1.lastReq
   pending : a.1.pending = none
   sbo : ∀ o ∈ a.2, isSbo o = true →
     func = 4 ∧ (∃ hs, classify s1 f ctrl func objects = .newNonRead hs) ∧ OperateOk s1 ctrl.seq f.id raw
@@ -2183,8 +2220,8 @@ theorem step_select_change (env : OEnv) (s : OState) (i : OInput) :
     rcases hst.select with h | ⟨hc, h⟩
     · exact .inl (hx.trans h)
     · exact .inr ⟨hc, hx.trans h⟩
-  have hkeep : ∀ s1 : OState, (a0.1.deferred = none → s1.lastReq = a0.1.lastReq) →
-      s.deferred = none → ¬ isCut i = true → s1.lastReq = s.lastReq := by
+  have hkeep : ∀ s1 : OState, (a0.1.deferred = none → lrKey s1.lastReq = lrKey a0.1.lastReq) →
+      s.deferred = none → ¬ isCut i = true → lrKey s1.lastReq = lrKey s.lastReq := by
     intro s1 h1 hd hc
     rcases hst.keep with ⟨h2, h3⟩ | h2
     · rw [h1 (h3.trans hd), h2]
@@ -2207,7 +2244,7 @@ theorem step_select_change (env : OEnv) (s : OState) (i : OInput) :
       refine .inr (.inr ⟨f, ctrl, func, hs, raw, hst.curFrag hd.was, hd.parse, hb, h0, h1, .inl ⟨h3, ?_, ?_, hz⟩⟩)
       · intro hdn hcut hex
         apply hnd
-        rw [hkeep s1 hd.keep1 hdn hcut]; exact hex
+        exact (lrKey_dup (hkeep s1 hd.keep1 hdn hcut) ctrl.seq f.data).mpr hex
       · rw [hs', hd.now1, hst.now]
     | rebase sel hr hs1 hs' =>
       obtain ⟨resp, hc⟩ := hr
@@ -2222,8 +2259,7 @@ theorem step_select_change (env : OEnv) (s : OState) (i : OInput) :
       refine .inr (.inr ⟨f, ctrl, func, hs, raw, hst.curFrag hd.was, hd.parse, hb, h0, h1,
         .inr ⟨?_, sel, hsel, hs'⟩⟩)
       intro hdn hcut
-      rw [← hkeep s1 hd.keep1 hdn hcut]
-      exact ⟨last, hl, hl1, hl2⟩
+      exact (lrKey_dup (hkeep s1 hd.keep1 hdn hcut) ctrl.seq f.data).mp ⟨last, hl, hl1, hl2⟩
 
 /-- **C04.4**: the transport frame counter increases by exactly 1 (mod 2^32) for every delivered fragment
     and is unchanged by every other input (including `.cut` and rejected `.rx`). -/
@@ -2419,7 +2455,8 @@ theorem step_cut_select (env : OEnv) (s : OState) (h : isDead s = false) :
     · rename_i hnd
       cases hm : s.mode <;> simp_all
   · have hinv := PassInv.of_pass (quiesce_runPass_pass
-      ({ s with lastReq := none, select := none, deferred := none, pending := none, mode := .idle .noSleep },
+      ({ s with db := s.db.reset, lastReq := none, select := none, deferred := none, pending := none,
+                mode := .idle .noSleep },
         [.line "session link stdio UnexpectedEof"])) (PassInv.start (by simp [isExec]))
     rcases hinv.cases with q | ⟨f, ctrl, func, objects, raw, s1, hd⟩
     · exact q.select
